@@ -135,7 +135,7 @@ func burstMain(rc *RunCtx) {
 			simrt.Probe("seed-reconnects")
 			slow.Connect()
 			deadline = time.Now().Add(bound)
-		} else if slow.Ready && slow.ChokingSys {
+		} else if slow.Ready && slow.ChokingSys && (!slow.Cfg.ChokeUninterested || slow.SysInterested) {
 			slow.Unchoke()
 		}
 	}
